@@ -62,3 +62,217 @@ def ackermannize(goal):
         return r
 
     return [walk(g) for g in goal]
+
+
+# ------------------------------------------------------------------------------------------------
+# bounded integer VCs -> bit-vectors (exact: interval analysis guarantees absence of overflow)
+# ------------------------------------------------------------------------------------------------
+class _NoBV(Exception):
+    pass
+
+
+def int_goal_to_bv(goal, width=96):
+    """Translate a goal over bounded mathematical integers into an equisatisfiable bit-vector goal.
+    Requirements (else None): every Int constant has explicit bounds among the top-level conjuncts; only
+    + - *const, div/mod by positive constants of non-negative dividends, ite, comparisons; no reals in Int terms."""
+    bounds = {}
+
+    def scan(e):
+        if z3.is_and(e):
+            for c in e.children():
+                scan(c)
+            return
+        if z3.is_app(e) and e.num_args() == 2:
+            a, b = e.children()
+            k = e.decl().kind()
+            if z3.is_int_value(a) and not z3.is_int_value(b):
+                a, b = b, a
+                k = {z3.Z3_OP_GE: z3.Z3_OP_LE, z3.Z3_OP_LE: z3.Z3_OP_GE, z3.Z3_OP_GT: z3.Z3_OP_LT,
+                     z3.Z3_OP_LT: z3.Z3_OP_GT}.get(k, k)
+            if z3.is_const(a) and a.decl().kind() == z3.Z3_OP_UNINTERPRETED and z3.is_int(a) and z3.is_int_value(b):
+                n = a.decl().name()
+                lo, hi = bounds.get(n, (None, None))
+                v = b.as_long()
+                if k == z3.Z3_OP_GE:
+                    lo = v if lo is None else max(lo, v)
+                elif k == z3.Z3_OP_LE:
+                    hi = v if hi is None else min(hi, v)
+                elif k == z3.Z3_OP_GT:
+                    lo = v + 1 if lo is None else max(lo, v + 1)
+                elif k == z3.Z3_OP_LT:
+                    hi = v - 1 if hi is None else min(hi, v - 1)
+                bounds[n] = (lo, hi)
+
+    for g in goal:
+        scan(g)
+    LIM = 1 << (width - 3)
+    cache = {}
+
+    def tr_int(e):
+        """returns (bv term, lo, hi)"""
+        key = e.get_id()
+        if key in cache:
+            return cache[key]
+        if z3.is_int_value(e):
+            v = e.as_long()
+            r = (z3.BitVecVal(v, width), v, v)
+        elif z3.is_const(e) and e.decl().kind() == z3.Z3_OP_UNINTERPRETED:
+            n = e.decl().name()
+            lo, hi = bounds.get(n, (None, None))
+            if lo is None or hi is None:
+                raise _NoBV("unbounded %s" % n)
+            r = (z3.BitVec(n, width), lo, hi)
+        elif z3.is_app(e):
+            k = e.decl().kind()
+            ch = e.children()
+            if k == z3.Z3_OP_ADD:
+                parts = [tr_int(c) for c in ch]
+                t, lo, hi = parts[0]
+                for (t2, lo2, hi2) in parts[1:]:
+                    t, lo, hi = t + t2, lo + lo2, hi + hi2
+                r = (t, lo, hi)
+            elif k == z3.Z3_OP_SUB:
+                parts = [tr_int(c) for c in ch]
+                t, lo, hi = parts[0]
+                for (t2, lo2, hi2) in parts[1:]:
+                    t, lo, hi = t - t2, lo - hi2, hi - lo2
+                r = (t, lo, hi)
+            elif k == z3.Z3_OP_UMINUS:
+                t, lo, hi = tr_int(ch[0])
+                r = (-t, -hi, -lo)
+            elif k == z3.Z3_OP_MUL:
+                parts = [tr_int(c) for c in ch]
+                t, lo, hi = parts[0]
+                for (t2, lo2, hi2) in parts[1:]:
+                    cands = [lo * lo2, lo * hi2, hi * lo2, hi * hi2]
+                    t, lo, hi = t * t2, min(cands), max(cands)
+                r = (t, lo, hi)
+            elif k in (z3.Z3_OP_IDIV, z3.Z3_OP_MOD):
+                (t, lo, hi), (t2, lo2, hi2) = tr_int(ch[0]), tr_int(ch[1])
+                if lo2 != hi2 or lo2 <= 0 or lo < 0:
+                    raise _NoBV("div/mod shape")
+                if k == z3.Z3_OP_IDIV:
+                    r = (z3.UDiv(t, t2), lo // lo2, hi // lo2)
+                else:
+                    r = (z3.URem(t, t2), 0, min(hi, lo2 - 1))
+            elif k == z3.Z3_OP_ITE:
+                c = tr_bool(ch[0])
+                (t, lo, hi), (t2, lo2, hi2) = tr_int(ch[1]), tr_int(ch[2])
+                r = (z3.If(c, t, t2), min(lo, lo2), max(hi, hi2))
+            else:
+                raise _NoBV("int op %s" % e.decl().name())
+        else:
+            raise _NoBV("int term")
+        if abs(r[1]) >= LIM or abs(r[2]) >= LIM:
+            raise _NoBV("range")
+        cache[key] = r
+        return r
+
+    def tr_bool(e):
+        if z3.is_true(e) or z3.is_false(e):
+            return e
+        if z3.is_and(e):
+            return z3.And(*[tr_bool(c) for c in e.children()])
+        if z3.is_or(e):
+            return z3.Or(*[tr_bool(c) for c in e.children()])
+        if z3.is_not(e):
+            return z3.Not(tr_bool(e.children()[0]))
+        if z3.is_app(e):
+            k = e.decl().kind()
+            ch = e.children()
+            if k == z3.Z3_OP_IMPLIES:
+                return z3.Implies(tr_bool(ch[0]), tr_bool(ch[1]))
+            if k == z3.Z3_OP_ITE:
+                return z3.If(tr_bool(ch[0]), tr_bool(ch[1]), tr_bool(ch[2]))
+            if k in (z3.Z3_OP_EQ, z3.Z3_OP_DISTINCT) and z3.is_bool(ch[0]):
+                a, b = tr_bool(ch[0]), tr_bool(ch[1])
+                return a == b if k == z3.Z3_OP_EQ else a != b
+            if k in (z3.Z3_OP_EQ, z3.Z3_OP_DISTINCT, z3.Z3_OP_LE, z3.Z3_OP_GE, z3.Z3_OP_LT, z3.Z3_OP_GT):
+                if not z3.is_int(ch[0]) or not z3.is_int(ch[1]):
+                    raise _NoBV("non-int comparison")
+                a, b = tr_int(ch[0])[0], tr_int(ch[1])[0]
+                return {z3.Z3_OP_EQ: a == b, z3.Z3_OP_DISTINCT: a != b, z3.Z3_OP_LE: a <= b, z3.Z3_OP_GE: a >= b,
+                        z3.Z3_OP_LT: a < b, z3.Z3_OP_GT: a > b}[k]
+            if z3.is_const(e) and z3.is_bool(e):
+                return e
+        raise _NoBV("bool term %s" % e.decl().name() if z3.is_app(e) else "bool")
+
+    out = []
+    try:
+        for g in goal:
+            if _mentions_only_reals(g):
+                continue  # global axioms about PI / trig: irrelevant to a pure integer goal (dropping is sound for unsat? no)
+            out.append(tr_bool(g))
+    except _NoBV:
+        return None
+    return out
+
+
+def _mentions_only_reals(e):
+    """True for conjuncts that contain no Int-sorted subterm and no boolean variable (pure real facts).  Dropping a
+    conjunct weakens the goal, so `unsat` of the remainder carries over; `sat` must not be trusted."""
+    seen = set()
+    stack = [e]
+    while stack:
+        x = stack.pop()
+        if x.get_id() in seen:
+            continue
+        seen.add(x.get_id())
+        if z3.is_int(x):
+            return False
+        if z3.is_const(x) and z3.is_bool(x) and x.decl().kind() == z3.Z3_OP_UNINTERPRETED:
+            return False
+        if z3.is_app(x):
+            stack.extend(x.children())
+    return True
+
+
+def int_consts(goal):
+    out = {}
+    seen = set()
+    stack = list(goal)
+    while stack:
+        e = stack.pop()
+        if e.get_id() in seen:
+            continue
+        seen.add(e.get_id())
+        if z3.is_const(e) and z3.is_int(e) and e.decl().kind() == z3.Z3_OP_UNINTERPRETED:
+            out[e.decl().name()] = e
+        elif z3.is_app(e):
+            stack.extend(e.children())
+    return out
+
+
+def pin_ints(goal, in_child, timeout_s=6.0):
+    """integer constants whose value is forced by the hypotheses (e.g. floor variables with tight linear bounds) are
+    replaced by that value.  Sound: each replacement v := c is justified by  hypotheses |= v == c  (checked)."""
+    ints = int_consts(goal)
+    if not ints:
+        return None
+    hyps = goal[:-1]
+
+    def run():
+        s = z3.Solver()
+        s.set("timeout", 2000)
+        for h in hyps:
+            s.add(h)
+        if s.check() != z3.sat:
+            return ["nomodel", None, None]
+        m = s.model()
+        vals = {}
+        for n, v in ints.items():
+            c = m.eval(v, model_completion=True)
+            s.push()
+            s.add(v != c)
+            r = s.check()
+            s.pop()
+            if r != z3.unsat:
+                return ["notpinned", n, None]
+            vals[n] = c.as_long()
+        return ["ok", None, vals]
+
+    res = in_child(run, timeout_s)
+    if not res or res[0] != "ok":
+        return None
+    subs = [(ints[n], z3.IntVal(c)) for n, c in res[2].items()]
+    return [z3.simplify(z3.substitute(g, *subs)) for g in goal]
